@@ -578,8 +578,18 @@ def stack(arrays, /, *, axis=0):
     if not arrays:
         raise ValueError("Need array(s) to stack")
 
-    # TODO: check arrays all have same shape
-    # TODO: unify chunks
+    if len({a.shape for a in arrays}) > 1:
+        raise ValueError(
+            f"all input arrays must have the same shape: {[a.shape for a in arrays]}"
+        )
+
+    # the key function addresses every input with the same block coordinates,
+    # so all inputs must share one chunking
+    if len({a.chunks for a in arrays}) > 1:
+        inds = [tuple(range(a.ndim)) for a in arrays]
+        uc_args = chain.from_iterable(zip(arrays, inds))
+        _, arrays = unify_chunks(*uc_args, warn=False)
+        arrays = list(arrays)
 
     a = arrays[0]
 
